@@ -62,7 +62,7 @@ theorem errorSites_eq : Generated.errorSites =
      ("copy", ["w:err", "w:ErrMissing", "w:err", "w:ErrMissing", "w:ErrMissing", "w:err", "r:NewAccumulatedCopySizeError", "w:err"]),
      ("doMergePatch", ["r:ErrBadJSONDoc", "r:ErrBadJSONPatch", "r:ErrBadJSONDoc", "r:ErrBadJSONDoc", "r:ErrBadJSONPatch", "r:ErrBadJSONPatch"]),
      ("ensurePathExists", ["w:ErrInvalidIndex", "w:ErrInvalidIndex"]),
-     ("move", ["w:err", "w:ErrInvalid", "w:ErrMissing", "w:err", "w:err", "w:err", "w:ErrMissing", "w:err"]),
+     ("move", ["w:err", "w:ErrInvalid", "w:ErrMissing", "w:err", "w:err", "w:err", "w:err", "w:ErrMissing", "w:err"]),
      ("partialArray.add", ["r:ErrInvalid", "w:err", "w:ErrInvalidIndex", "w:ErrInvalidIndex", "w:ErrInvalidIndex"]),
      ("partialArray.get", ["r:ErrInvalid", "w:ErrInvalidIndex", "w:ErrInvalidIndex", "w:ErrInvalidIndex"]),
      ("partialArray.remove", ["r:ErrInvalid", "w:ErrInvalidIndex", "w:ErrInvalidIndex", "w:ErrInvalidIndex"]),
